@@ -139,6 +139,7 @@ def run(ck, F, tier):
     ck.rule("L4", "encode framing")
     ck.rule("L5", "errors, not panics, in the subcommands")
     ck.rule("L6", "ber result lines")
+    ck.rule("L9", "the girth printed with --girth is computed by the breadth-first cycle search: queue discipline and the decisions of local_girth (the rule C16-Q5, run here)")
     ck.rule("L8", "the systematic subcommand prints the converted matrix: the conversion itself (error mapping, rank test, column placement: the rules of C09, run here)")
     ck.rule("L7", "an unreadable alist file ends in an error message, not a panic: the parser the subcommands call is total (the rule C08-P1, run here)")
 
@@ -253,6 +254,8 @@ def run(ck, F, tier):
     c08.run(RuleAlias(ck, "L7", only=lambda r_, k_: r_ == "P1"), F, "quick")
     from . import c09
     c09.run(RuleAlias(ck, "L8", only=lambda r_, k_: r_ in ("Y2", "Y3")), F, "quick")
+    from . import c16
+    c16.run(RuleAlias(ck, "L9", only=lambda r_, k_: r_ == "Q5"), F, "quick")
 
 
 def encode_framing_rules(ck, F, b, t, wr, rd, enc):
